@@ -10,9 +10,17 @@
 
   All matrix theorems hold for every commutative ring `R` (in particular ℂ), every list of
   components of any length, every channel position and every count of channels already expanded.
+
+  Extension (model: `Model/C07SV.lean`): the amplitude-level paths — `LossSimulator.evolve` /
+  `_postprocess_sv_impl`, `LC.apply`, the whole matrix of `DensityMatrix.apply_loss` with its beam-splitter
+  dilation, a noisy source in front of the loss channels.
+  Still outside the theorems (exercised by the correspondence only): `evolve` on superposition inputs; the
+  factorisation of the enlarged circuit's permanents over spectator modes (the dilation theorems speak about the
+  lossy mode and a vacuum environment mode, the other modes being untouched by construction); annotated photons.
 -/
 import PercevalModel.Lemmas.C07
 import PercevalModel.Lemmas.C07Mass
+import PercevalModel.Lemmas.C07SV
 import PercevalModel.Props.C02
 
 open Matrix
@@ -429,6 +437,228 @@ theorem cached_session_depends_on_history :
   have := h id ⟨0, none⟩ [.query, .edit (fun _ => 1), .query]
   simp [SM.run, sessStepCached, specStep] at this
 
+/-! ### the state-vector path: `LossSimulator.evolve` / `_postprocess_sv_impl`
+
+The code truncates every state of the enlarged circuit's state vector to the original modes and ADDS the
+amplitudes that meet on one truncated state.  Reading the same contributions *incoherently* (`|a|² q` each)
+is exactly the distribution path; the coherent sum the code forms is the square root of that probability
+only when a truncated state has a single loss pattern behind it. -/
+
+/-- **evolve_incoherent_eq_probs**: for every enlarged matrix, every number of original modes and every Fock
+input, the contributions `LossSimulator.evolve` accumulates are — state by state, in the same order — the
+amplitudes whose squared moduli `LossSimulator.probs` accumulates: `|perm|²/(∏s!∏t!)` on `t[0:M]`. -/
+theorem evolve_incoherent_eq_probs {N : ℕ} (U : Matrix (Fin N) (Fin N) GQ) (M : ℕ) (s : List ℕ) :
+    sqDist (lossEvolve U M [(s, 1)]) = lossProbs U M s := by
+  simp [lossEvolve, evolveSV, evolveFock, postprocessSV, sqDist, lossProbs, postprocess, fullDist,
+    Dist.mapKeys, Fock.prob, div_eq_mul_inv, Function.comp_def]
+
+/-- when a reduced state `r` receives a single contribution (one loss pattern), the squared modulus of the
+amplitude `evolve` gives it is the probability `probs` gives it -/
+theorem evolve_single_pattern_eq_prob {N : ℕ} (U : Matrix (Fin N) (Fin N) GQ) (M : ℕ) (s r : List ℕ)
+    (e : List ℕ × GQ × ℚ) (h : (lossEvolve U M [(s, 1)]).filter (·.1 == r) = [e]) :
+    GQ.normSq e.2.1 * e.2.2 = Dist.get (lossProbs U M s) r := by
+  rw [← evolve_incoherent_eq_probs, get_sqDist, h]
+  simp
+
+/-- **evolve_one_channel_single_pattern**: with ONE loss channel (`M + 1` modes) and a Fock input, every reduced
+state has at most one loss pattern behind it (the number of lost photons is fixed by photon-number
+conservation) — so there `evolve` agrees with `probs` on every state (previous theorem). -/
+theorem evolve_one_channel_single_pattern (M : ℕ) (U : Matrix (Fin (M + 1)) (Fin (M + 1)) GQ)
+    (s r : List ℕ) : ((lossEvolve U M [(s, 1)]).filter (·.1 == r)).length ≤ 1 := by
+  simp only [lossEvolve, evolveSV, evolveFock, postprocessSV, List.map_cons, List.map_nil,
+    List.flatMap_cons, List.flatMap_nil, List.append_nil, List.map_map, List.filter_map,
+    List.length_map]
+  apply length_le_one_of_nodup_of_all_eq
+  · exact (Fock.allStates_nodup _ _).filter _
+  · intro t ht u hu
+    rw [List.mem_filter] at ht hu
+    have h1 := (Fock.mem_allStates_iff _ _ _).1 ht.1
+    have h2 := (Fock.mem_allStates_iff _ _ _).1 hu.1
+    have e1 : t.take M = r := by simpa [Function.comp_def] using ht.2
+    have e2 : u.take M = r := by simpa [Function.comp_def] using hu.2
+    exact eq_of_take_eq_of_sum_eq M t u h1.1 h2.1 (h1.2.trans h2.2.symm) (e1.trans e2.symm)
+
+/-- Negative witness (the code as it is): with two loss patterns behind one reduced state the coherent sum is
+NOT the probability.  One photon through two channels `(c, s) = (3/5, 4/5)` then `(4/5, 3/5)` on the same
+mode: amplitudes `12/25` (kept), `4/5` (lost in the first), `9/25` (lost in the second); `evolve` gives the
+vacuum the amplitude `4/5 + 9/25 = 29/25`, squared `841/625`, while its probability is `481/625`. -/
+theorem evolve_adds_amplitudes_of_loss_patterns :
+    ¬ ∀ (v : SVec) (M : ℕ) (r : List ℕ), (∀ e ∈ v, e.2.2 = 1) →
+      GQ.normSq (coherent (postprocessSV M v) r) = Dist.get (sqDist (postprocessSV M v)) r := by
+  intro h
+  have := h [([1, 0, 0], ⟨12/25, 0⟩, 1), ([0, 1, 0], ⟨4/5, 0⟩, 1), ([0, 0, 1], ⟨9/25, 0⟩, 1)] 1 [0]
+    (by simp)
+  simp [coherent, postprocessSV, sqDist, Dist.get, GQ.normSq, List.filter_cons] at this
+  norm_num at this
+
+/-! ### `LC.apply` (the `Stepper`'s way through a loss channel) -/
+
+/-- **lcApply_marginal_eq_dmLoss**: for every state vector on `M` modes, every mode and every loss, the squared
+moduli of `LC.apply`'s output with the extra (lost-photon) mode dropped are, contribution by contribution, the
+diagonal of `DensityMatrix.apply_loss` on the squared moduli of the input — the binomial thinning of
+`dm_loss_eq_bs_thinning` / `lc_binomial_thinning`. -/
+theorem lcApply_marginal_eq_dmLoss (r M : ℕ) (p : ℚ) (v : SVec) (hv : ∀ e ∈ v, e.1.length = M) :
+    sqDist (postprocessSV M (lcApply r p v)) = dmLossDiag r p (sqDist v) := by
+  induction v with
+  | nil => rfl
+  | cons e rest ih =>
+    have ih' := ih (fun x hx => hv x (by simp [hx]))
+    have he : e.1.length = M := hv e (by simp)
+    simp only [lcApply, postprocessSV, sqDist, dmLossDiag, List.flatMap_cons, List.map_append,
+      List.map_cons, List.map_map] at ih' ⊢
+    rw [ih']
+    congr 1
+    apply List.map_congr_left
+    intro l _
+    simp only [Function.comp_def]
+    rw [List.take_left' (by rw [annihilate_length, he])]
+    congr 1
+    ring
+
+/-- `LC.apply` keeps the norm of the state vector -/
+theorem lcApply_norm_preserved (r M : ℕ) (p : ℚ) (v : SVec) (hv : ∀ e ∈ v, e.1.length = M) :
+    Dist.mass (sqDist (lcApply r p v)) = Dist.mass (sqDist v) := by
+  rw [← mass_sqDist_postprocessSV M, lcApply_marginal_eq_dmLoss r M p v hv, dmLoss_mass]
+
+/-! ### the whole matrix of `DensityMatrix.apply_loss` (off-diagonal entries included) -/
+
+/-- radicands stay non-negative -/
+theorem krausApply_nonnegRad (mode : ℕ) (p : ℚ) (h0 : 0 ≤ p) (h1 : p ≤ 1) (ρ : DMat)
+    (h : NonnegRad ρ) : NonnegRad (krausApply mode p ρ) := by
+  intro x hx
+  simp only [krausApply, List.mem_flatMap, List.mem_map] at hx
+  obtain ⟨e, he, l, _, rfl⟩ := hx
+  exact mul_nonneg (h e he) (mul_nonneg (krausW2_nonneg p h0 h1 _ _) (krausW2_nonneg p h0 h1 _ _))
+
+/-- **kraus_trace_preserved**: for every density matrix (any list of contributions, off-diagonal entries
+included), every mode and every `0 ≤ p ≤ 1`, the map `ρ ↦ Σ_l K_l ρ K_lᵀ` of `_apply_loss` keeps the trace —
+under every interpretation of the square roots (`RootEval`; e.g. ℂ with `Real.sqrt`).  Off-diagonal entries
+never reach the diagonal (`annihilate_inj`), a diagonal entry is spread with the weights `w(n, l)`, `Σ_l = 1`. -/
+theorem kraus_trace_preserved {K : Type} [CommRing K] (E : RootEval K) (mode : ℕ) (p : ℚ)
+    (h0 : 0 ≤ p) (h1 : p ≤ 1) (ρ : DMat) (h : NonnegRad ρ) :
+    dmTrace E (krausApply mode p ρ) = dmTrace E ρ := by
+  induction ρ with
+  | nil => rfl
+  | cons e rest ih =>
+    rw [krausApply_cons, dmTrace_append, dmTrace_cons, kraus_head_trace E mode p h0 h1 e (h e (by simp)),
+      ih (fun x hx => h x (by simp [hx]))]
+
+/-- closed form of the beam-splitter amplitude's permanent: `n! c^(n-l) s^l`, a non-negative real for `c, s ≥ 0` -/
+theorem dilAmp_closed_form (c s : ℚ) (n l : ℕ) (hl : l ≤ n) :
+    (dilAmp c s n l).1 = GQ.ofRat ((n.factorial : ℚ) * c ^ (n - l) * s ^ l) := by
+  have h := thinning_amplitude (bsH (⟨c, 0⟩ : GQ) ⟨s, 0⟩) n (n - l) (Nat.sub_le n l)
+  rw [Nat.sub_sub_self hl] at h
+  unfold dilAmp
+  simp only
+  rw [h]
+  simp only [bsH, mk_zero_eq_ofRat, natCast_eq_ofRat, ← ofRatHom_apply, ← map_pow, ← map_mul]
+  simp
+
+/-- **kraus_entry_eq_bs_amplitude**: the entry `√(C(n,l) (1-p)^(n-l) p^l)` the code writes into `K_l` IS the
+amplitude `⟨n-l, l| BS.H |n, 0⟩ = perm / √(n! (n-l)! l!)` of the channel's beam splitter (`c = √(1-p) ≥ 0`,
+`s = √p ≥ 0`) between the mode and a vacuum environment mode — value and sign, not only the modulus. -/
+theorem kraus_entry_eq_bs_amplitude {K : Type} [CommRing K] (E : RootEval K) (c s p : ℚ)
+    (hc : 0 ≤ c) (hs : 0 ≤ s) (hcc : c * c = 1 - p) (hss : s * s = p) (n l : ℕ) (hl : l ≤ n) :
+    E.eval (dilAmp c s n l) = E.σ (krausW2 p n l) := by
+  unfold RootEval.eval
+  rw [dilAmp_closed_form c s n l hl]
+  simp only [dilAmp]
+  have hx0 : 0 ≤ (n.factorial : ℚ) * c ^ (n - l) * s ^ l := by positivity
+  rw [← E.σ_sq _ hx0, ← E.σ_mul _ _ (mul_nonneg hx0 hx0) (by positivity)]
+  congr 1
+  unfold krausW2
+  have hf : (n.factorial : ℚ) = n.choose l * l.factorial * (n - l).factorial := by
+    exact_mod_cast (Nat.choose_mul_factorial_mul_factorial hl).symm
+  have h1 : (l.factorial : ℚ) ≠ 0 := by exact_mod_cast Nat.factorial_ne_zero l
+  have h2 : ((n - l).factorial : ℚ) ≠ 0 := by exact_mod_cast Nat.factorial_ne_zero (n - l)
+  have h3 : (n.factorial : ℚ) ≠ 0 := by exact_mod_cast Nat.factorial_ne_zero n
+  rw [← hcc, ← hss]
+  field_simp
+  rw [hf]
+  ring
+
+/-- **kraus_eq_bs_dilation**: `DensityMatrix.apply_loss` is the beam-splitter dilation with the environment traced
+out.  For every density matrix (off-diagonal entries included), every mode and loss `p = s²`, `1 - p = c²`
+(`c, s ≥ 0`): coupling the mode to a vacuum environment mode with the block `BS.H(c, s)` and summing over the
+environment's photon number gives, contribution by contribution and under every interpretation of the square
+roots, the matrix `Σ_l K_l ρ K_lᵀ` the code computes. -/
+theorem kraus_eq_bs_dilation {K : Type} [CommRing K] (E : RootEval K) (mode : ℕ) (c s p : ℚ)
+    (hc : 0 ≤ c) (hs : 0 ≤ s) (hcc : c * c = 1 - p) (hss : s * s = p) (ρ : DMat) (h : NonnegRad ρ) :
+    (dilateTrace mode c s ρ).map (fun e => (e.1, E.eval e.2)) =
+      (krausApply mode p ρ).map (fun e => (e.1, E.eval e.2)) := by
+  have h0 : 0 ≤ p := by rw [← hss]; exact mul_self_nonneg s
+  have h1 : p ≤ 1 := by nlinarith [mul_self_nonneg c]
+  induction ρ with
+  | nil => rfl
+  | cons e rest ih =>
+    have ih' := ih (fun x hx => h x (by simp [hx]))
+    have hq : 0 ≤ e.2.2 := h e (by simp)
+    simp only [dilateTrace, krausApply, List.flatMap_cons, List.map_append, List.map_map] at ih' ⊢
+    rw [ih']
+    congr 1
+    apply List.map_congr_left
+    intro l hl
+    rw [List.mem_range] at hl
+    simp only [Function.comp_def, Prod.mk.injEq, true_and]
+    have ht : l ≤ e.1.1.getD mode 0 := by omega
+    have hu : l ≤ e.1.2.getD mode 0 := by omega
+    have kt := kraus_entry_eq_bs_amplitude E c s p hc hs hcc hss _ l ht
+    have ku := kraus_entry_eq_bs_amplitude E c s p hc hs hcc hss _ l hu
+    have hst : star (dilAmp c s (e.1.2.getD mode 0) l).1 = (dilAmp c s (e.1.2.getD mode 0) l).1 := by
+      rw [dilAmp_closed_form c s _ l hu, star_ofRat]
+    have hr1 : 0 ≤ (dilAmp c s (e.1.1.getD mode 0) l).2 := by unfold dilAmp; positivity
+    have hr2 : 0 ≤ (dilAmp c s (e.1.2.getD mode 0) l).2 := by unfold dilAmp; positivity
+    have hw1 := krausW2_nonneg p h0 h1 (e.1.1.getD mode 0) l
+    have hw2 := krausW2_nonneg p h0 h1 (e.1.2.getD mode 0) l
+    unfold RootEval.eval at kt ku ⊢
+    simp only
+    rw [hst, map_mul, map_mul, E.σ_mul _ _ hq (mul_nonneg hr1 hr2), E.σ_mul _ _ hr1 hr2,
+      E.σ_mul _ _ hq (mul_nonneg hw1 hw2), E.σ_mul _ _ hw1 hw2, ← kt, ← ku]
+    ring
+
+/-! ### a noisy source in front of the lossy circuit -/
+
+/-- the emission-only source model is a probability distribution over the Fock inputs -/
+theorem sourceDist_mass_one (e : ℚ) (s : List ℕ) : ((sourceDist e s).map (·.1)).sum = 1 :=
+  sourceDist_weights e s
+
+/-- every Fock input the source model can deliver lives on the modes of the expected input -/
+theorem sourceDist_length (e : ℚ) : ∀ (s : List ℕ), ∀ q ∈ sourceDist e s, q.2.length = s.length
+  | [], q, hq => by
+    simp only [sourceDist, List.mem_singleton] at hq
+    rw [hq]
+  | k :: rest, q, hq => by
+    simp only [sourceDist, List.mem_flatMap, List.mem_map] at hq
+    obtain ⟨q', hq', l, _, rfl⟩ := hq
+    simp [sourceDist_length e rest q' hq']
+
+/-- **loss_noisy_source_mass_one**: noisy source and loss channels together.  For every accepted component list
+(`WF`, unitary components, unitary channel blocks) and every source distribution over Fock inputs on the `M`
+original modes whose weights sum to one, the distribution `LossSimulator.probs_svd` returns on the original
+modes — the mixture over the source's inputs of the marginalised enlarged distributions — has total probability
+exactly one. -/
+theorem loss_noisy_source_mass_one (M N : ℕ) (items : Items GQ) (hwf : WF N M items)
+    (hu : AllUnitary items) (hMN : M ≤ N) (src : List (ℚ × List ℕ))
+    (hlen : ∀ q ∈ src, q.2.length = M) (hw : (src.map (·.1)).sum = 1) :
+    Dist.mass (lossProbsMix (prod N (rewrite M items)) M src) = 1 := by
+  unfold lossProbsMix
+  apply Dist.mass_mix_one
+  · intro p hp
+    rw [List.mem_map] at hp
+    obtain ⟨q, hq, rfl⟩ := hp
+    exact loss_distribution_mass_one M N items hwf hu q.2 (hlen q hq) hMN
+  · rw [List.map_map]
+    exact hw
+
+/-- the caller's view with the emission-only source model: expected input `s` on `M` modes, emission probability
+`e`, list inside the `M` original modes with real channel amplitudes — total probability one -/
+theorem loss_source_model_mass_one (M : ℕ) (items : Items GQ) (hf : Fits M items)
+    (hr : RealLoss items) (e : ℚ) (s : List ℕ) (hs : s.length = M) :
+    Dist.mass (lossProbsMix (prod (expandedM M items) (rewrite M items)) M (sourceDist e s)) = 1 :=
+  loss_noisy_source_mass_one M (expandedM M items) items (fits_imp_WF M _ items M hf le_rfl le_rfl)
+    (realLoss_allUnitary items hr) (Nat.le_add_right _ _) (sourceDist e s)
+    (fun q hq => (sourceDist_length e s q hq).trans hs) (sourceDist_mass_one e s)
+
 /-! ### layer choice of `SimulatorFactory.build` -/
 
 /-- a list with a loss channel (and no feed-forward) gets the loss layer, outermost -/
@@ -479,5 +709,40 @@ example : Dist.mass (lossProbs (prod 6 (rewrite 3 exItems)) 3 [1, 1, 0]) = 1 :=
       simp only [exItems, AllUnitary, and_true]
       refine ⟨?_, ?_, ?_, ?_⟩ <;> unfold IsUnitary <;> decide +kernel)
     [1, 1, 0] rfl (by omega)
+
+/-- `RootEval` is inhabited: ℂ with the non-negative real square root (so `kraus_trace_preserved`,
+`kraus_entry_eq_bs_amplitude`, `kraus_eq_bs_dilation` speak about the complex matrices of the code) -/
+noncomputable example : RootEval ℂ := complexEval
+
+/-- a density matrix with off-diagonal entries (the superposition `(|2,0⟩ + 2|0,1⟩)/√5`) satisfying `NonnegRad`,
+a loss `p = 16/25` with `c = 3/5`, `s = 4/5 ≥ 0` -/
+example : NonnegRad [(([2, 0], [2, 0]), ⟨1/5, 0⟩, 1), (([2, 0], [0, 1]), ⟨2/5, 0⟩, 1),
+    (([0, 1], [2, 0]), ⟨2/5, 0⟩, 1), (([0, 1], [0, 1]), ⟨4/5, 0⟩, 1)] ∧
+    (0 : ℚ) ≤ 3/5 ∧ (0 : ℚ) ≤ 4/5 ∧ (3/5 : ℚ) * (3/5) = 1 - 16/25 ∧ (4/5 : ℚ) * (4/5) = 16/25 ∧
+    (0 : ℚ) ≤ 16/25 ∧ (16/25 : ℚ) ≤ 1 := by
+  refine ⟨?_, by norm_num, by norm_num, by norm_num, by norm_num, by norm_num, by norm_num⟩
+  intro e he
+  simp only [List.mem_cons, List.not_mem_nil, or_false] at he
+  rcases he with rfl | rfl | rfl | rfl <;> norm_num
+
+/-- `lcApply_marginal_eq_dmLoss`: a state vector on 2 modes -/
+example : ∀ e ∈ ([([2, 1], 1, 1), ([0, 1], ⟨0, 2⟩, 1)] : SVec), e.1.length = 2 := by
+  intro e he
+  simp only [List.mem_cons, List.not_mem_nil, or_false] at he
+  rcases he with rfl | rfl <;> rfl
+
+/-- `evolve_single_pattern_eq_prob`: its hypothesis is met by every reduced state of a one-channel program that has
+a contribution at all (`evolve_one_channel_single_pattern`: the filtered list has length ≤ 1); a source
+distribution for `loss_noisy_source_mass_one`: the model's own, `sourceDist (3/4) [1, 1, 0]` -/
+example : ((sourceDist (3/4) [1, 1, 0]).map (·.1)).sum = 1 ∧
+    ∀ q ∈ sourceDist (3/4) [1, 1, 0], q.2.length = 3 :=
+  ⟨sourceDist_mass_one _ _, sourceDist_length _ _⟩
+
+example : Dist.mass (lossProbsMix (prod 6 (rewrite 3 exItems)) 3 (sourceDist (3/4) [1, 1, 0])) = 1 :=
+  loss_noisy_source_mass_one 3 6 exItems (by simp [exItems, WF])
+    (by
+      simp only [exItems, AllUnitary, and_true]
+      refine ⟨?_, ?_, ?_, ?_⟩ <;> unfold IsUnitary <;> decide +kernel)
+    (by omega) _ (sourceDist_length _ _) (sourceDist_mass_one _ _)
 
 end PM.C07
